@@ -930,7 +930,11 @@ pub fn fddiff(args: &[String]) {
         }
         nprog += 1;
         let has_sread = prog.iter().any(|s| s["op"] == "SRead");
-        for (mode, chunk) in [(if has_sread { 1u8 } else { 0u8 }, 0usize), (1, 3)] {
+        let one_variant = args.get(4).map(|s| s == "1").unwrap_or(false);
+        for (vi, (mode, chunk)) in [(if has_sread { 1u8 } else { 0u8 }, 0usize), (1, 3)].into_iter().enumerate() {
+            if one_variant && vi == 1 {
+                break;
+            }
             let whole = run_program_opts(&prog, &frames, mode, chunk, false, true);
             if !whole.violations.is_empty() {
                 continue; // reported by the replay itself
